@@ -40,6 +40,8 @@ func c19GenB(thorough bool) func(emit func(c19Base)) {
 			product(dims, func(ix []int) { profs = append(profs, append([]int{}, ix...)) })
 		}
 		profs = append(profs, []int{4, 5})
+		// 6: the shard scrapes a target (40 series) for which the explorer's estimate exceeds the limits
+		profs = append(profs, []int{6}, []int{6, 1})
 		for _, prof := range profs {
 			n := len(prof)
 			// last-shard class in cycle 1, new targets, head, idle, min-shard, cycle-2 change, relief disabled
@@ -70,6 +72,9 @@ func c19GenB(thorough bool) func(emit func(c19Base)) {
 							b.Copy(s, hA, h1.St{State: "in_transfer", Health: "up", Times: 5, Series: 40, Total: 40})
 						case 5:
 							b.Copy(s, uint64(100*s), h1.St{Health: "up", Times: 1, Series: 40, Total: 40})
+						case 6:
+							b.Target(hA, 150, 150, true, "up")
+							b.Copy(s, hA, h1.St{Health: "up", Times: 5, Series: 40, Total: 40})
 						}
 						if fill > 0 {
 							if cycle == 1 && change == 1 {
